@@ -1069,6 +1069,10 @@ func ParseExecBlock(p *ParserZH, mainIndent int) *syntax.ExecBlock {
 			p.unsetStmtCompleteFlag()
 			if match, _ := p.tryConsume(TypeCatchErrorW); match {
 				execBlock.CatchBlock = append(execBlock.CatchBlock, ParseCatchErrorStmt(p))
+			} else {
+				// only 拦截 blocks may follow a 拦截 block; anything else must be
+				// rejected here, otherwise this loop would never consume a token
+				panic(p.getInvalidSyntaxPeek())
 			}
 		}
 	})
